@@ -32,7 +32,8 @@
 //     starts at height e*EpochInterval, base epoch 1), MockEpochs
 //     (DebugMockBackend: epochs advance only with TxSetEpoch), BypassStake,
 //     DebondingInterval, ConsensusMinGasPrice, MaxBlockGas, MaxTxSize,
-//     VotingPeriod, Mutate(doc).
+//     VotingPeriod, EqualEscrow (all validator entities tie in stake), MaxValidators
+//     (election cutoff), NoRewards, Mutate(doc).
 //     Staking parameters are non-trivial: fee split 2/1/1, reward schedule,
 //     signing threshold 1/2, slashing with freeze, commission rules and
 //     per-validator schedules, thresholds, gas costs per op; stake is NOT
